@@ -1010,7 +1010,7 @@ def run_gadgets(ck, n_cases=None, proof=True):
             if badm:
                 res['proof_ok'] = False
                 res['failing'] += ['leanchecker rejected %s' % x for x in badm]
-    exe = recsolver.build(ck)
+    exe = recsolver.build(ck, flags=('-O1',))     # same build as the end-to-end stage of checks/c01.py
     drv = Driver(ck.driver('drv_c01'))
     wd = os.path.join(BUILD, 'c01g')
     os.makedirs(wd, exist_ok=True)
